@@ -385,13 +385,13 @@ type ModelVal struct {
 }
 
 type Violation struct {
-	Label   string     `json:"label"`
-	Concrete bool      `json:"concrete"`
-	Path    string     `json:"path"`
-	Model   []ModelVal `json:"model"`
-	Choices []uint64   `json:"choices"`
-	Events  []string   `json:"events"`
-	Cross   map[string]string `json:"cross,omitempty"`
+	Label    string            `json:"label"`
+	Concrete bool              `json:"concrete"`
+	Path     string            `json:"path"`
+	Model    []ModelVal        `json:"model"`
+	Choices  []uint64          `json:"choices"`
+	Events   []string          `json:"events"`
+	Cross    map[string]string `json:"cross,omitempty"`
 }
 
 type Witness struct {
@@ -402,63 +402,63 @@ type Witness struct {
 }
 
 type Config struct {
-	Solver        string
-	Secondary     []string
-	TimeoutMs     int
-	MaxPaths      int
-	MaxDecisions  int
-	MaxInstr      int64
-	MaxValues     int // per concretisation site
-	Deadline      time.Time
-	Workers       int
-	Witnesses     int // number of passing-path witnesses to extract
+	Solver          string
+	Secondary       []string
+	TimeoutMs       int
+	MaxPaths        int
+	MaxDecisions    int
+	MaxInstr        int64
+	MaxValues       int // per concretisation site
+	Deadline        time.Time
+	Workers         int
+	Witnesses       int // number of passing-path witnesses to extract
 	StopOnViolation int // stop after this many violations per label (0 = unlimited)
-	Debug         bool
+	Debug           bool
 }
 
 type Shared struct {
-	Cfg Config
-	mu  sync.Mutex
-	cond *sync.Cond
+	Cfg     Config
+	mu      sync.Mutex
+	cond    *sync.Cond
 	pending [][]decision
 	busy    int
 	stopped bool
 
-	Paths        int
-	PathsByEnd   map[string]int
-	EndMsgs      map[string]int
-	Asserts      int            // property queries sent to the solver
+	Paths           int
+	PathsByEnd      map[string]int
+	EndMsgs         map[string]int
+	Asserts         int // property queries sent to the solver
 	AssertsConcrete int
-	AssertUnsat  int
-	AssertSat    int
-	AssertUnknown int
-	AssertByLabel map[string]*LabelStat
-	Reach        map[string]int
-	Decisions    int
-	FeasQueries  int
-	UnknownFeas  int
-	Violations   []Violation
-	violByLabel  map[string]int
-	Witnesses    []Witness
-	Funcs        map[string]int
-	Models       map[string]int // externals / models used
-	BoundReduced map[string]int
-	CrossAgree   int
-	CrossDisagree int
-	CrossUnknown int
-	SolverTime   time.Duration
-	SolverQueries int
-	Instrs       int64
-	MaxTrail     int
-	Twin         map[string]int // verdict of "path condition satisfiable" at the end of each completed path
+	AssertUnsat     int
+	AssertSat       int
+	AssertUnknown   int
+	AssertByLabel   map[string]*LabelStat
+	Reach           map[string]int
+	Decisions       int
+	FeasQueries     int
+	UnknownFeas     int
+	Violations      []Violation
+	violByLabel     map[string]int
+	Witnesses       []Witness
+	Funcs           map[string]int
+	Models          map[string]int // externals / models used
+	BoundReduced    map[string]int
+	CrossAgree      int
+	CrossDisagree   int
+	CrossUnknown    int
+	SolverTime      time.Duration
+	SolverQueries   int
+	Instrs          int64
+	MaxTrail        int
+	Twin            map[string]int // verdict of "path condition satisfiable" at the end of each completed path
 }
 
 type LabelStat struct {
-	Queries int `json:"queries"`
-	Unsat   int `json:"unsat"`
-	Sat     int `json:"sat"`
-	Unknown int `json:"unknown"`
-	Concrete int `json:"concrete_true"`
+	Queries       int `json:"queries"`
+	Unsat         int `json:"unsat"`
+	Sat           int `json:"sat"`
+	Unknown       int `json:"unknown"`
+	Concrete      int `json:"concrete_true"`
 	ConcreteFalse int `json:"concrete_false"`
 }
 
@@ -531,25 +531,25 @@ func (sh *Shared) done() {
 // ---------------------------------------------------------------- per-worker explorer
 
 type Explorer struct {
-	sh      *Shared
-	S       *Solver
-	sec     []*Solver
-	secPos  []int
-	script  []string // permanent commands of the current path
-	prefix  []decision
-	trail   []decision
-	vars    []VarInfo
-	occ     map[string]int
-	nterms  int
-	nvars   int
-	events  []string
-	instrs  int64
-	funcs   map[string]int
-	models  map[string]int
+	sh           *Shared
+	S            *Solver
+	sec          []*Solver
+	secPos       []int
+	script       []string // permanent commands of the current path
+	prefix       []decision
+	trail        []decision
+	vars         []VarInfo
+	occ          map[string]int
+	nterms       int
+	nvars        int
+	events       []string
+	instrs       int64
+	funcs        map[string]int
+	models       map[string]int
 	pathViolated bool
-	uid     int
-	terms   map[string]sym
-	fp      bool // the path has floating-point terms: one-shot queries
+	uid          int
+	terms        map[string]sym
+	fp           bool // the path has floating-point terms: one-shot queries
 	harnessState
 }
 
